@@ -217,7 +217,7 @@ def rand_scenario(
         if slow_hooks:
             calls[-1]["handler_dur"] = [rng.choice([0.0, 0.0, G, 0.25]) for _ in range(nout)]
             calls[-1]["bs_dur"] = [rng.choice([0.0, 0.0, G, 0.25]) for _ in range(nout)]
-    return {
+    return _finish({
         "cfg": cfg,
         "place": place,
         "bs_kind": rng.choice(["sync", "async", "lambda"] if exotic_callables else ["sync", "async"]),
@@ -242,7 +242,29 @@ def rand_scenario(
         # the operation's errors are raised while handling, or `from`, another error (a rejected inner circuit, a timeout underneath)
         "abort_origin": rng.choice(["direct", "direct", "nested"]),  # an AbortRetryError raised by the operation itself, or by a policy nested in it
         "exc_chain": rng.choice([None] * 8 + ["open_context", "timeout_cause", "open_cause", "abort_context", "scripted_cause", "scripted_cause"]),
-    }
+        "rely_on_defaults": rng.random() < 0.08,
+    })
+
+
+def _finish(sc):
+    if sc.pop("rely_on_defaults", False) and not sc["cfg"].get("no_retry"):
+        rely_on_defaults(sc)
+    return sc
+
+
+def rely_on_defaults(sc):
+    """The caller passes no limits: the documented defaults are the configuration (README / docs/usage: deadline_s=60, max_attempts=6,
+    max_unknown_attempts=2 for every way of building a policy)."""
+    cfg = sc["cfg"]
+    cfg["deadline_s"] = 60.0
+    cfg["max_attempts"] = 6
+    cfg["max_unknown"] = 2
+    cfg["omit_limits"] = True
+    for c in sc["calls"]:
+        c.pop("set", None)
+        if c.get("abort_at") is not None:
+            c["abort_at"] = min(c["abort_at"], 12)
+    return sc
 
 
 def rand_exc_family(rng):
